@@ -2,3 +2,4 @@
 pub mod dsets;
 pub mod dsyms;
 pub mod covers;
+pub mod groups;
